@@ -574,8 +574,8 @@ structure Source where
   csvValid : Bool
   /-- `io.thermo.icap_csv_sample_format(path)` -/
   sniff : Outcome String
-  /-- `io.agilent.load_info(path)` raises `ValueError` -/
-  infoFails : Bool
+  /-- how `io.agilent.load_info(path)` ends -/
+  info : Outcome Unit
   /-- the loaders that return `(data, params)` -/
   call : Loader → Outcome Loaded
   /-- `io.npz.load(path)`: a complete image with its stored configuration -/
@@ -593,13 +593,18 @@ def agilentMethods : List (List String) := [["batch_xml", "batch_csv"], ["acq_me
 /-- lines 27-36: `data = None; for methods in …: try: data, params = io.agilent.load(…);
 info.update(io.agilent.load_info(path)); break; except ValueError: pass`.  The second argument is
 what `data, params` hold so far: a `ValueError` of `load_info` is caught by the same `except`, AFTER
-the assignment, so the loop goes on with the data in hand.  Another exception leaves `load`. -/
+the assignment, so the loop goes on with the data in hand.  Any other exception — of the loader or
+of `load_info` — leaves `load`. -/
 def agilentLoop (s : Source) : List (List String) → Option (Loader × Loaded) →
     Except Fail (Option (Loader × Loaded))
   | [], data => .ok data
   | m :: ms, data =>
     match s.call (.agilent m) with
-    | .ok x => if s.infoFails then agilentLoop s ms (some (.agilent m, x)) else .ok (some (.agilent m, x))
+    | .ok x =>
+      match s.info with
+      | .ok _ => .ok (some (.agilent m, x))                     -- break
+      | .valueError => agilentLoop s ms (some (.agilent m, x))   -- except ValueError: pass
+      | .otherError => .error .crash
     | .valueError => agilentLoop s ms data
     | .otherError => .error .crash
 
@@ -714,30 +719,41 @@ def okOf {α β} (x : α × Outcome β) : Option (α × β) :=
   | .ok b => some (x.1, b)
   | _ => none
 
-/-- which of the attempted library calls delivers the image.  Ordinarily the first call that does
-not end in a `ValueError` decides: its result is the image, or its (other) exception ends the run.
-When `load_info` fails with a `ValueError` for this batch, every call is made — unless one ends in
-another exception — and the last successful one delivers.  No successful call: usage error. -/
-def choose {α} (infoFails : Bool) (os : List (Loader × Outcome α)) : Except Fail (Loader × α) :=
-  if infoFails then
+/-- which of the attempted library calls delivers the image; `info` is how `load_info` ends for this
+path (consulted after a successful Agilent call only: `Source.infoFor`).  Ordinarily the first call that does not end in a
+`ValueError` decides: its result is the image, or its (other) exception ends the run.  When
+`load_info` fails with a `ValueError`, every call is made — unless one ends in another exception —
+and the last successful one delivers.  When `load_info` fails otherwise, the first successful call
+is followed by that failure.  No successful call: usage error. -/
+def choose {α} (info : Outcome Unit) (os : List (Loader × Outcome α)) : Except Fail (Loader × α) :=
+  match info with
+  | .valueError =>
     if os.any (·.2.isOther) then .error .crash
     else match (os.filterMap okOf).getLast? with
       | some x => .ok x
       | none => .error .usage
-  else
+  | .ok _ =>
     match os.find? (fun o => !o.2.isValueError) with
     | none => .error .usage
     | some o =>
       match o.2 with
       | .ok a => .ok (o.1, a)
       | _ => .error .crash
+  | .otherError =>
+    match os.find? (fun o => !o.2.isValueError) with
+    | none => .error .usage
+    | some _ => .error .crash
+
+/-- `load_info` is called for Agilent batches only -/
+def Source.infoFor (s : Source) (row : Row) : Outcome Unit :=
+  if row.candidates.all (fun ld => match ld with | .agilent _ => true | _ => false) then s.info else .ok ()
 
 /-- the specification of `load`: a `.csv` file that cannot be sniffed is rejected; otherwise the
 (at most one) row of the table that applies names the candidates and `choose` picks among their
 outcomes; no row: the input is not supported (usage error, nothing is loaded) -/
 def loadSpec (d : Tok × Tok × Tok) (s : Source) : Except Fail (Loader × Laser) :=
   match table.filter (·.guard s) with
-  | [row] => choose s.infoFails (row.candidates.map fun ld => (ld, s.image d ld))
+  | [row] => choose (s.infoFor row) (row.candidates.map fun ld => (ld, s.image d ld))
   | _ =>
     if !s.isDir && s.sfx == ".csv" && s.sniff.isOther then .error .crash else .error .usage
 
